@@ -315,7 +315,7 @@ func c08clip(s string, n int) string {
 // runs one round: sequential twin, then the concurrent run, then the oracle.
 // Returns the (writer, call) pairs observed concurrently and per call (admitted, destinations of the twin).
 func c08RunRound(r *Run, rd *c08Round, st *c08Stats) (obs [][2]int, admitted []bool, dests [][]int) {
-	c08Flags(rd.Caller, rd.AttrsR)
+	c08Flags(rd.Caller, rd.AttrsR, rd.Caller && rd.Idx%2 == 0)
 	rp := map[string]any{"mode": "stress", "seed": r.Seed, "tier": r.Tier, "round": rd.Idx, "shared_safe": rd.SharedSafe, "g": rd.G, "n": rd.N, "loggers": rd.Loggers, "shared": rd.Shared, "blank_calls": rd.Blanks}
 	total := rd.G * rd.N
 	callOf := make([]c08CallDesc, total)
@@ -368,6 +368,13 @@ func c08RunRound(r *Run, rd *c08Round, st *c08Stats) (obs [][2]int, admitted []b
 			}
 		}
 	}
+
+	// (set-up calls between the two runs, as a program makes them before it starts its goroutines: a path rule is
+	// registered and withdrawn again - whatever the library derives from its rule tables starts from scratch)
+	slog.AddKnownPathMapping("/nonexistent-c08-dir", "~c08")
+	slog.RemoveKnownPathMapping("/nonexistent-c08-dir")
+	slog.AddKnownPathRegexpMapping("^/nonexistent-c08/(.+)", "~$1")
+	slog.RemoveKnownPathRegexpMapping("^/nonexistent-c08/(.+)")
 
 	// --- concurrent run on an identically built tree ---
 	rt := rd.build()
